@@ -49,3 +49,7 @@ Theorem C01_dispatch_table_agrees : forall pb,
 Proof. exact DispatchProofs.dispatch_agrees. Qed.
 Theorem C01_dispatch_domain : forall pb n, DispatchProofs.model_dispatch pb n <> None -> In n (map (fun p => runes (fst p)) Facts.dispatch_table).
 Proof. exact DispatchProofs.dispatch_domain. Qed.
+(* the option tables of options.go (which options each macro accepts, and which take an argument) are the model's *)
+Theorem C01_option_tables_agree :
+  forallb (fun p => match DispatchProofs.model_spec (fst p) with Some m => DispatchProofs.spec_agrees (snd p) m | None => false end) Facts.opt_specs = true.
+Proof. exact DispatchProofs.option_tables_agree. Qed.
